@@ -2560,6 +2560,198 @@ def processor_members(case):
 
 
 # ------------------------------------------------------------------------------------------------
+# ------------------------------------------------------------------------------------------------
+# N. one detector instance through detect(n) calls at CHANGING global_params['min_p'] (+ clear_cache(), copy())
+#    (Model/C08Hist.lean: detectInstH / bsInstH; detect_history_minp_eq_fresh, bs_history_minp_eq_fresh)
+# ------------------------------------------------------------------------------------------------
+def dethist_minp(q):
+    return SHIPPED_MINP if q is None else fr(q)
+
+
+def dethist_observe(case):
+    """run the history on the real code; [(canonical output | None for clear/copy/back)]"""
+    d = case["det"]
+    inst = build_det(d)
+    original = inst
+    outs = []
+    for st in case["steps"]:
+        if st[0] == "detect":
+            with MinP(None if st[1] is None else float(dethist_minp(st[1]))):
+                outs.append(py_out(inst.detect(st[2])))
+        elif st[0] == "clear":
+            inst.clear_cache()
+            outs.append(None)
+        elif st[0] == "copy":
+            inst = inst.copy()
+            outs.append(None)
+        elif st[0] == "back":
+            inst = original
+            outs.append(None)
+        else:
+            raise ValueError(st)
+    return outs
+
+
+def dethist_oracle(case, outs, mg=None):
+    """the property evaluated directly: every detect(n) must be the click law with exactly the contributions not above the
+    CURRENT min_p removed (exact Fractions).  Returns (index, description) of the first failing step or None"""
+    d = case["det"]
+    mg = mg or Margin()
+    for i, st in enumerate(case["steps"]):
+        if st[0] != "detect":
+            continue
+        exp = dict(asis_kernel(d, st[2], dethist_minp(st[1]), mg))
+        got = outs[i]
+        gd = {got["state"]: 1.0} if "state" in got else got["dist"]
+        why = cmp_dist(gd, exp)
+        if why is not None:
+            return i, why
+    return None
+
+
+def run_dethist_case(chk, case):
+    d, steps = case["det"], case["steps"]
+    mg = Margin()
+    first, seen_copy = {}, False
+    for st in steps:                       # oracle comparisons of the whole history: closeness of p to min_p
+        if st[0] == "detect":
+            asis_kernel(d, st[2], dethist_minp(st[1]), mg)
+    if mg.m < 1e-9:
+        chk.count("dethist_skipped", "comparison-too-close")
+        return None
+    try:
+        outs = dethist_observe(case)
+    except Exception as e:
+        return ("violation", "detector-history-raises", f"history {steps} on {json.dumps(d)} raised {type(e).__name__}: {e}",
+                case)
+    label = f"ONE {det_label(d)} detector instance {json.dumps(d)}"
+    bad = dethist_oracle(case, outs)
+    if bad is not None:
+        i, why = bad
+
+        def fails(c):
+            try:
+                return dethist_oracle(c, dethist_observe(c)) is not None
+            except Exception:
+                return False
+        small = dict(case, steps=steps[:i + 1])
+        changed = True
+        while changed:
+            changed = False
+            for k in range(len(small["steps"]) - 1):
+                c = dict(small, steps=small["steps"][:k] + small["steps"][k + 1:])
+                if fails(c):
+                    small, changed = c, True
+                    break
+        earlier = [s for s in small["steps"][:-1] if s[0] == "detect"]
+        sig = "detector-cache-stale-minp" if earlier else "detect-click-law-minp"
+        st = small["steps"][-1]
+        return ("violation", sig,
+                f"{label}: after {small['steps'][:-1]} the call detect({st[2]}) at min_p={float(dethist_minp(st[1]))!r} does not "
+                f"return the click law of its description at the current min_p: {why}", small)
+    # model (repaired code = main model) against the implementation
+    lsteps = [[core.rat(dethist_minp(st[1])), st[2]] if st[0] == "detect" else None
+              for st in steps if st[0] in ("detect", "clear")]
+    idx = [i for i, st in enumerate(steps) if st[0] in ("detect", "clear")]
+    req = {"op": "hist", "fixed": True, "steps": lsteps}
+    if d["k"] == "bs":
+        req.update(L=d["L"], r=core.rat(r_float(d)))
+    else:
+        ld = lean_det(d)
+        req.update(wires=ld["w"], max=ld["max"])
+    rep = chk.lean.ask(req)
+    if "err" in rep:
+        return ("broken", "model-vs-code", f"{label}: model rejects the history ({rep['err']})", case)
+    for j, i in enumerate(idx):
+        if steps[i][0] != "detect":
+            continue
+        why = cmp_out(outs[i], lean_out(rep["outs"][j]))
+        if why is not None:
+            return ("broken", "model-vs-code", f"{label}: step {i + 1} {steps[i]} vs model: {why}",
+                    dict(case, steps=steps[:i + 1]))
+    # branch counters
+    chk.branch("dethist")
+    chk.branch("dethist-bs" if d["k"] == "bs" else "dethist-interleaved")
+    for st in steps:
+        if st[0] == "clear":
+            chk.branch("dethist-clear")
+            first = {}
+        elif st[0] == "copy":
+            chk.branch("dethist-copy")
+        elif st[0] == "detect" and st[2] >= 2:
+            n, mp = st[2], dethist_minp(st[1])
+            if n in first and first[n] != mp:
+                a, b = asis_kernel(d, n, first[n], Margin()), asis_kernel(d, n, mp, Margin())
+                if a != b:
+                    # the dictionary cached by the first call differs from the one due now: a cache keyed by the photon
+                    # count alone would answer wrongly here
+                    chk.branch("dethist-stale-would-differ")
+                    chk.branch("dethist-minp-lowered" if mp < first[n] else "dethist-minp-raised")
+            first.setdefault(n, mp)
+    chk.case(("dethist", json.dumps(d, sort_keys=True), json.dumps(steps)), nontrivial=True,
+             sample={"detector": d, "steps": steps[:5]})
+    return None
+
+
+def dethist_cut_values(d, n):
+    """probabilities the code compares with min_p when it builds detect(n)"""
+    if d["k"] == "bs":
+        L, r = d["L"], r_exact(d)
+        return sorted(set(multinomial_law([leaf_weight(L, k, r) for k in range(2 ** L)], n).values()))
+    w = d["w"]
+    mx = w if d.get("max") is None else min(d["max"], w)
+    cap = min(mx, n)
+    vals = [closed(w, i, n) for i in range(1, cap)]
+    vals.append(1 - sum(vals))
+    return sorted(set(vals))
+
+
+def dethist_cases(chk):
+    rng = chk.rng
+    out = []
+    fixed_dets = [{"k": "ppnr", "w": 3, "max": None}, {"k": "ppnr", "w": 5, "max": 2}, {"k": "bs", "L": 2, "r": [1, 2]},
+                  {"k": "bs", "L": 1, "r": [9, 25]}]
+    # deterministic histories: coarse / shipped / coarse again around clear_cache() and copy()
+    for d, n, q in [({"k": "bs", "L": 2, "r": [1, 2]}, 3, [1, 20]), ({"k": "bs", "L": 1, "r": [9, 25]}, 2, [1, 5]),
+                    ({"k": "ppnr", "w": 4, "max": 3}, 3, [1, 5])]:
+        steps = [["detect", q, n], ["detect", None, n], ["detect", q, n], ["copy"], ["detect", None, n], ["back"],
+                 ["detect", q, n], ["detect", None, n]]
+        if d["k"] == "bs":
+            steps = steps[:2] + [["clear"]] + steps[2:] + [["clear"], ["detect", q, n]]
+        out.append({"det": d, "steps": steps})
+    for t in range(chk.pick(36, 300)):
+        d = fixed_dets[t] if t < len(fixed_dets) else gen_det(rng, rng.choice(["interleaved", "bs"]))
+        if d["k"] == "ppnr" and d["w"] == 1:
+            continue
+        ns = rng.sample([2, 3, 4] if d["k"] == "bs" else [2, 3, 4, 5], rng.randint(1, 2))
+        cuts = []
+        for n in ns:
+            vals = [v for v in dethist_cut_values(d, n) if v > 0]
+            for a, b in zip([Fraction(0)] + vals, vals):
+                cuts.append((a + b) / 2)
+        cuts = [c for c in cuts if c > 0]
+        qs = [None] + [[c.numerator, c.denominator] for c in rng.sample(cuts, min(len(cuts), 3))]
+        hi = max(cuts) if cuts else Fraction(1, 2)
+        steps = []
+        if rng.random() < 0.6:      # coarse first, then the shipped value: the realistic order
+            steps += [["detect", [hi.numerator, hi.denominator], ns[0]], ["detect", None, ns[0]]]
+        else:
+            steps += [["detect", None, ns[0]], ["detect", [hi.numerator, hi.denominator], ns[0]]]
+        on_copy = False
+        for _ in range(rng.randint(2, 6)):
+            x = rng.random()
+            if x < 0.12 and d["k"] == "bs":
+                steps.append(["clear"])
+            elif x < 0.24:
+                steps.append(["back"] if on_copy else ["copy"])
+                on_copy = not on_copy
+            else:
+                steps.append(["detect", copy.deepcopy(rng.choice(qs)), rng.choice(ns + [rng.choice([0, 1])])])
+        steps.append(["detect", None, ns[0]])
+        out.append({"det": d, "steps": steps})
+    return out
+
+
 def dispatch(chk, kind, case):
     if kind == "detect":
         return run_detect_case(chk, case)
@@ -2589,6 +2781,8 @@ def dispatch(chk, kind, case):
         return run_simthr_case(chk, case)
     if kind == "sampleminp":
         return run_sampleminp_case(chk, case)
+    if kind == "dethist":
+        return run_dethist_case(chk, case)
     if kind == "mix":
         if case.get("via") == "processor" and case.get("members") is None:
             case = dict(case, members=processor_members(case))
@@ -2622,6 +2816,8 @@ def run(chk: core.Check):
                 "(general branch m<=4, uniform lists, one mode, exact ties), BSLayeredPPNR.detect and simulate_detectors_sample at "
                 "changed min_p; probs_svd on mixtures of 2-6 Fock members (photons lost, vacuum, unrelated states) with heralds, "
                 "filter, post-selection, precision in {0, 1e-3..0.5}, and Processor.probs() with brightness 0.3..0.9. "
+                "One interleaved / beam-splitter-tree instance through 4-12 operations: detect(n) at the shipped min_p and at "
+                "cut-offs between the probabilities the code compares with min_p, clear_cache(), copy(), back to the original. "
                 "distinct = distinct (detector, photons) / (kinds, states, filter) "
                 "signatures; non-trivial = a multi-wire or tree detector hit by >=2 photons, resp. a non-PNR list on a "
                 "distribution with a >=2-photon state")
@@ -2643,6 +2839,9 @@ def run(chk: core.Check):
         "mixed inputs: members are un-annotated Fock states; their theoretical distributions are taken from the SLOS backend "
         "(floats read as exact rationals); the oracle (mixture of per-member conditioned laws) is evaluated at precision 0, "
         "cases with precision > 0 are compared with the model only",
+        "histories with a changing min_p: the oracle is the exact 'kept iff above the CURRENT min_p' law in Fractions; histories "
+        "in which a compared probability is closer than 1e-9 relative to a min_p value are skipped and counted; copy() is not an "
+        "operation of the model (the model's answers do not depend on it), it is judged by the oracle",
         "simulate_detectors_sample at a changed min_p with an EMPTY per-mode dictionary follows the characterised restart rule "
         "(sample_restarts_after_empty_kernel); this is a quirk at min_p >= 1/(number of readings), not reported as a defect",
         "the all-PNR branch of simulate_detectors returns its input without applying the photon filter "
@@ -2687,7 +2886,10 @@ def run(chk: core.Check):
                              # mixed inputs through the detector path
                              "mix-model", "mix-mask-path", "mix-imperfect-detectors", "mix-member-dropped",
                              "mix-member-below-filter", "mix-vacuum-member", "mix-photon-numbers-differ",
-                             "mix-threshold-from-precision", "mix-postselect", "mix-heralds", "mix-via-processor"]
+                             "mix-threshold-from-precision", "mix-postselect", "mix-heralds", "mix-via-processor",
+                             # one instance through detect calls at changing min_p
+                             "dethist", "dethist-bs", "dethist-interleaved", "dethist-clear", "dethist-copy",
+                             "dethist-stale-would-differ", "dethist-minp-lowered", "dethist-minp-raised"]
     rng = chk.rng
     for kind, case in load_corpus():
         if kind == "sim":
@@ -2739,6 +2941,7 @@ def run(chk: core.Check):
     go("simthr", simthr_cases(chk))
     go("sampleminp", sampleminp_cases(chk))
     go("mix", mix_cases(chk))
+    go("dethist", dethist_cases(chk))
     chk.exhaustive = False
     chk.extra["exhaustive_parts"] = {
         "Detector.detect": f"all 0<=max<=w<={chk.pick(8, 14)} and max=None, n<={chk.pick(10, 18)}",
